@@ -86,7 +86,9 @@ func checkDAG(c *core.Ctx, d *lref.DAG, desc string) {
 				if self == 1 {
 					nxt.self = e
 				}
-				for di, diff := range diffs {
+				for dj := 0; dj < 2*len(diffs); dj++ {
+					di, askBetween := dj%len(diffs), dj < len(diffs)
+					diff := diffs[di]
 					if di > 0 && len(nxt.path) > 2 {
 						continue // all three diff functions on short histories, the first on all
 					}
@@ -97,11 +99,14 @@ func checkDAG(c *core.Ctx, d *lref.DAG, desc string) {
 					}
 					for _, st := range nxt.path {
 						qi.ProcessEvent(evs[st[0]], st[1] == 1)
-						// the emitter asks the search strategy after every event: this fills its metric cache
-						qi.SearchStrategy().Choose(nil, allIDs)
+						// variant 1: the emitter asks the search strategy after every event (this fills its metric cache);
+						// variant 2: nothing is asked until the whole history is processed (lazy re-computation)
+						if askBetween {
+							qi.SearchStrategy().Choose(nil, allIDs)
+						}
 					}
 					replay := func() interface{} {
-						return map[string]interface{}{"dag": d.String(), "family": desc, "process_event_calls(event,self)": nxt.path, "diff_function": di}
+						return map[string]interface{}{"dag": d.String(), "family": desc, "process_event_calls(event,self)": nxt.path, "diff_function": di, "getters_called_between_events": askBetween}
 					}
 					med := qi.GetGlobalMedianSeqs()
 					wantMed := make([]uint64, nV)
@@ -148,7 +153,11 @@ func checkDAG(c *core.Ctx, d *lref.DAG, desc string) {
 								idxs = append(idxs, ce)
 							}
 						}
-						pick := qi.SearchStrategy().Choose(nil, opts)
+						pick := -1
+						if pv := core.Catch(func() { pick = qi.SearchStrategy().Choose(nil, opts) }); pv != nil {
+							c.Violation("strategy-panic", replay(), "SearchStrategy().Choose panicked: %v [%v]", pv, replay())
+							return
+						}
 						best := wantMetric[idxs[0]]
 						for _, ce := range idxs {
 							if wantMetric[ce] > best {
